@@ -98,6 +98,46 @@ func c15Accumulator(r *core.Run, p *core.Prog) {
 			}
 		}
 	}
+	// locals that name a part of the item (any copy) or of the accumulator (only true aliases: `&acc.X`, or a value of
+	// pointer / map / slice type) — e.g. the parameters of an expanded helper `extend(&acc.Summary.TimeRange, item.Summary.TimeRange)`
+	for changed := true; changed; {
+		changed = false
+		core.Walk(f.Decl.Body, false, func(x ast.Node) bool {
+			a, ok := x.(*ast.AssignStmt)
+			if !ok || a.Tok != token.DEFINE || len(a.Lhs) != len(a.Rhs) {
+				return true
+			}
+			for k := range a.Lhs {
+				o := core.ObjOf(info, a.Lhs[k])
+				if o == nil || items[o] || accs[o] {
+					continue
+				}
+				if _, isCall := ast.Unparen(a.Rhs[k]).(*ast.CallExpr); isCall {
+					continue
+				}
+				root := rootOf(a.Rhs[k])
+				switch {
+				case items[root]:
+					items[o], changed = true, true
+				case accs[root]:
+					alias := false
+					if u, ok := ast.Unparen(a.Rhs[k]).(*ast.UnaryExpr); ok && u.Op == token.AND {
+						alias = true
+					}
+					if t := info.TypeOf(a.Rhs[k]); t != nil {
+						switch t.Underlying().(type) {
+						case *types.Pointer, *types.Map, *types.Slice:
+							alias = true
+						}
+					}
+					if alias {
+						accs[o], changed = true, true
+					}
+				}
+			}
+			return true
+		})
+	}
 	parents := core.Parents(f.Decl.Body)
 	n := 0
 	core.Walk(f.Decl.Body, false, func(x ast.Node) bool {
